@@ -315,14 +315,15 @@ def _shell_cases(ctx, test_fn, per):
     return res
 
 
-def _shell_witnesses(ctx, pl, per, shell_cases=None):
+def _shell_witnesses(ctx, pl, per, shell_cases=None, witnesses=None, rule='R7', consequence='the overlap is missed and the state gets a score'):
     """Static evaluation of the shell-count decision at witness cells."""
     rep, f = ctx.rep, ctx.facts
     from fractions import Fraction
     from ..celltables import eval_num
+    witnesses = SHELL_WITNESSES if witnesses is None else witnesses
     if shell_cases is not None:
         b = pl.b
-        for w in SHELL_WITNESSES:
+        for w in witnesses:
             env = {'self.cell.length.value': Fraction(w['a']), 'self.cell.ratio.value': Fraction(w['b']) / Fraction(w['a']),
                    'self.cell.angle.value': Fraction(w['angle'])}
             got, why = [], ''
@@ -336,14 +337,14 @@ def _shell_witnesses(ctx, pl, per, shell_cases=None):
                 if sat:
                     got.append(v)
             if got is None or len({repr(x) for x in got}) != 1 or got[0][0] != 'num':
-                rep.fail('R7', 'shell-witness:%s' % w['name'], where(b), 'cannot evaluate the shell-count decision statically: %s'
+                rep.fail(rule, 'shell-witness:%s' % w['name'], where(b), 'cannot evaluate the shell-count decision statically: %s'
                          % (why or 'the witness cell selects %d value(s)' % len(got or [])), 'undecidable-shape')
                 continue
             g = int(got[0][1])
-            rep.check(g >= w['min_shells'], 'R7', 'shell-witness:%s' % w['name'], where(b, per['bb']),
+            rep.check(g >= w['min_shells'], rule, 'shell-witness:%s' % w['name'], where(b, per['bb']),
                       'cell (a=%.3g, b=%.3g, angle=%.4g) gets %s shells >= %d required' % (w['a'], w['b'], w['angle'], g, w['min_shells']),
                       'the shell heuristic searches only %s shell(s) for the cell a=%.3g, b=%.3g, angle=%.4g rad, but %s: at least %d are '
-                      'needed, the overlap is missed and the state gets a score' % (g, w['a'], w['b'], w['angle'], w['why'], w['min_shells']))
+                      'needed, %s' % (g, w['a'], w['b'], w['angle'], w['why'], w['min_shells'], consequence))
             rep.sample('shell heuristic at witness %s -> %s shells (>= %d required)' % (w['name'], g, w['min_shells']))
         return
     b, cfg, tr = pl.b, pl.cfg, pl.tr
@@ -369,7 +370,7 @@ def _shell_witnesses(ctx, pl, per, shell_cases=None):
     for x in cands:
         if all(cfg.dominates(y, x) for y in cands):
             start_bb = x
-    for w in SHELL_WITNESSES:
+    for w in witnesses:
         env = {'a': Fraction(w['a']), 'b': Fraction(w['b']), 'angle': Fraction(w['angle'])}
         bb = start_bb
         got = None
@@ -400,10 +401,10 @@ def _shell_witnesses(ctx, pl, per, shell_cases=None):
                 why = 'decision walk left the shell-count prefix at bb%d' % bb
                 break
         if got is None:
-            rep.fail('R7', 'shell-witness:%s' % w['name'], where(b), 'cannot evaluate the shell-count decision statically: %s' % why,
+            rep.fail(rule, 'shell-witness:%s' % w['name'], where(b), 'cannot evaluate the shell-count decision statically: %s' % why,
                      'undecidable-shape')
             continue
-        rep.check(isinstance(got, int) and got >= w['min_shells'], 'R7', 'shell-witness:%s' % w['name'], where(b, per['bb']),
+        rep.check(isinstance(got, int) and got >= w['min_shells'], rule, 'shell-witness:%s' % w['name'], where(b, per['bb']),
                   'cell (a=%.3g, b=%.3g, angle=%.4g) gets %s shells >= %d required' % (w['a'], w['b'], w['angle'], got, w['min_shells']),
                   'the shell heuristic searches only %s shell(s) for the cell a=%.3g, b=%.3g, angle=%.4g rad, but %s: at least %d are '
                   'needed, the overlap is missed and the state gets a score' % (got, w['a'], w['b'], w['angle'], w['why'], w['min_shells']))
